@@ -29,6 +29,8 @@ let table : (string * (z list -> z list)) list = [
   ("cs_px", (fun _ -> [Model.Zneg (Model.XI (Model.XO (Model.XO Model.XH)))]));
   ("thin_cov", (fun _ -> [Model.Zneg (Model.XI (Model.XO (Model.XO Model.XH)))]));
   ("cs_span", (fun _ -> [Model.Zneg (Model.XI (Model.XO (Model.XO Model.XH)))]));
+  ("big_draw", (fun _ -> [Model.Zneg (Model.XI (Model.XO (Model.XO Model.XH)))]));
+  ("stroke_fp", (fun _ -> [Model.Zneg (Model.XI (Model.XO (Model.XO Model.XH)))]));
   ("nearest_map", run_nearest_map);
   ("tiles", run_tiles);
   ("pat_px", (fun _ -> [Model.Zneg (Model.XI (Model.XO (Model.XO Model.XH)))]));
